@@ -32,7 +32,7 @@ type OpenOpts struct {
 }
 
 func (i *Inst) dialOpts(o OpenOpts, cid string) wsraw.DialOpts {
-	d := wsraw.DialOpts{Addr: i.P.Addr, LocalIP: o.LocalIP, TLS: i.P.TLS, ConnID: cid, NTLM: o.NTLM}
+	d := wsraw.DialOpts{Addr: i.AddrFor(o.LocalIP), LocalIP: o.LocalIP, TLS: i.P.TLS, ConnID: cid, NTLM: o.NTLM}
 	if o.XFF != "" {
 		d.Headers = append(d.Headers, [2]string{"X-Forwarded-For", o.XFF})
 	}
